@@ -209,7 +209,7 @@ class PropCheck:
             self.write_evidence(t0, None, 0, 0, 1, build_error=e.stage)
             return 1
         # 2. proof obligations
-        pr = proofs.check(self.coq_prop or self.pid)
+        pr = proofs.check(self.coq_prop or self.pid, self.tier)
         # 3. correspondence and search
         cases = self.cases()
         if not pr["ok"]:
@@ -314,6 +314,7 @@ class PropCheck:
             "theorems": pr["theorems"] if pr else [],
             "print_assumptions": pr["assumptions"] if pr else {},
             "proof_error": (pr or {}).get("error"),
+            "coqchk": (pr or {}).get("coqchk"),
             "evaluations": evaluations,
             "distinct_nontrivial": nontrivial,
             "rule": self.rule,
